@@ -2184,6 +2184,9 @@ fn seg_values() -> Vec<String> {
         "", "%20", "%201", ".", "..", "%2e%2e", "%2F", "%2f..%2f..", "%00", "a%00b", "%ff%fe", "%C3%BC", "a%C3%A9",
         "A%C3%A9", "AS0", "AS4294967295", "AS4294967296", "AS-1", "AS", "as1", "%E2%82%AC%E2%82%AC", "ta", "testbed", "ca1",
         "-", "_", "*", "%25", "%", "%zz", "a+b", "a;b", "a,b", "null", "true", "[]", "%7B%7D",
+        // characters a handle may contain (rpki `compat`) or that decode to text which is not a URI character
+        "a\\b", "a%5Cb", "%5C", "a%22b", "a%3Cb", "a%3Eb", "a%7Cb", "a%5Eb", "a%60b", "a%7Bb%7D", "a%5Bb%5D", "a%23b", "a%3Fb",
+        "a%40b", "a%3Ab", "a%3A", "%3Aa", "a~b", "a!b", "a$b", "a&b", "a'b", "a(b)", "a=b",
     ]
     .iter()
     .map(|s| s.to_string())
